@@ -473,6 +473,8 @@ std::vector<K> gen_keys(TapeReader &t, const GenOpts &o, KeyMeta &meta) {
         m.assign(1, 0);
     }
 
+    keys.shrink_to_fit(); // capacity == size: a read one past the caller's array is visible to AddressSanitizer (C17)
+
     // ---- generator post-conditions (a breach is a harness bug, never a violation)
     for (size_t i = 0; i < n; ++i) {
         if constexpr (std::is_floating_point_v<K>) {
